@@ -30,12 +30,15 @@ RULE = ("every shape dim 1..4 extents 1..3 (thorough: 1..4) x every non-empty su
         "kind rotate so that every combination class occurs; accumulate on every shape x every axis in both signs; statistics on a "
         "sample of shapes; a few out-of-quantifier axis arguments (spec unspecified). non-trivial = source of dim >= 2 with an extent > 1; "
         "distinct = distinct case lines")
-THEOREM_STATUS = {"proved": [], "partial": [], "refuted": []}
+THEOREM_STATUS = {"proved": ["C08_reduce_shape", "C08_reduce_elem", "C08_axes_order_and_sign", "C08_axes_permutation_same_mask",
+                             "C08_reduce_all_axes_eq_none", "C08_accumulate_on_domain", "C08_sum_prod_amax_amin",
+                             "C08_mean_divisor_counts_folded_elements"],
+                  "partial": [], "refuted": ["C08_accumulate_negative_axis_refuted"]}
 ASSUMPTIONS = ["extents are positive; axes valid and duplicate-free (outside: C15)",
                "the {start,stop} slice view with 0 <= start <= stop <= extent reads source coordinate start+k (slice arithmetic is C05)",
                "integer data stays inside int64 (generators keep partial results small); floating-point statistics only up to 1e-9"]
 
-OPS_GENERAL = ["add", "subtract", "multiply", "maximum", "minimum"]
+OPS_GENERAL = ["add", "subtract", "lin", "lin", "multiply", "maximum", "minimum"]
 OPS_NAMED = ["add", "multiply", "maximum", "minimum", "sum", "prod", "amax", "amin"]
 KDS = ["def", "rt0", "rt1", "ct0", "ct1"]
 
@@ -79,11 +82,11 @@ def gen_cases(rng, tier):
     cnt = itertools.count()
 
     def reduce_line(shape, axis_tok, akind, n):
-        api = "reduce" if n % 2 == 0 else "named"
-        op = OPS_GENERAL[(n // 2) % 5] if api == "reduce" else OPS_NAMED[(n // 2) % 8]
-        kd = KDS[(n // 3) % 5]
-        arrk = "fix" if (api == "reduce" and op in ("add", "subtract") and (n // 5) % 3 == 0) else "dyn"
-        if api == "named" and n % 16 == 1 and axis_tok.startswith("I:"): op = "subtract"   # reduce_subtract: single int axis only
+        api = rng.choice(["reduce", "named"])
+        op = rng.choice(OPS_GENERAL) if api == "reduce" else rng.choice(OPS_NAMED)
+        if api == "named" and axis_tok.startswith("I:") and rng.random() < 0.3: op = "subtract"   # reduce_subtract: single int axis only
+        kd = KDS[n % 5]
+        arrk = "fix" if (api == "reduce" and op in ("add", "subtract", "lin") and rng.random() < 0.5) else "dyn"
         if rng.random() < 0.5: init = "N"
         else: init = "I:%d" % (rng.choice([1, -1, 2, -2, 3]) if op in ("multiply", "prod") else rng.randint(-20, 20))
         return "reduce S:%s S:%s S:%s S:%s S:%s %s %s %s" % (op, api, akind, kd, arrk, A(shape, data_for(rng, op, size(shape))), axis_tok, init)
@@ -110,8 +113,8 @@ def gen_cases(rng, tier):
         for axis in range(d):
             for sign in (0, 1):
                 n = next(cnt)
-                op = ["cumsum", "cumprod", "subtract", "add", "multiply", "maximum", "minimum"][n % 7]
-                arrk = "fix" if n % 4 == 0 else "dyn"
+                op = ["cumsum", "cumprod", "subtract", "lin", "add", "multiply", "maximum", "minimum"][n % 8]
+                arrk = "fix" if n % 3 == 0 else "dyn"
                 out.append(("accumulate", "accum S:%s S:%s %s I:%d" % (op, arrk, A(shape, data_for(rng, op, size(shape))), axis - d if sign else axis), "c08"))
     # statistics on double data
     nstat = 500 if tier == "quick" else 4000
@@ -160,7 +163,7 @@ def distribution(streams):
     ops = Counter(); dims = Counter(); kds = Counter(); apis = Counter()
     for _, line, _ in streams:
         t = line.split(" ")
-        ops[t[0] + ":" + t[1][2:]] += 1
+        ops[t[0] + (":" + t[1][2:] if t[0] in ("reduce", "accum", "stat") else "")] += 1
         dims[str(len(_shape_of(line)))] += 1
         if t[0] == "reduce": kds[t[4][2:]] += 1; apis[t[2][2:] + "/" + t[3][2:] + "/" + t[5][2:]] += 1
     return {"ops": dict(ops), "source_dims": dict(dims), "keepdims": dict(kds), "api/axiskind/arraykind": dict(apis)}
